@@ -59,6 +59,9 @@ class _OverlayProbe:
         return self
 
 
+_NonException = type("KeyError", (BaseException,), {})        # reported under the same name as the ordinary listener error
+
+
 def observe(probes, recv):
     """what can be seen after a step: the streams and the code objects (public), and - as long as this tree still has
     them - ptera's own bookkeeping (handler collection, tooling counts); `internals` says whether the latter could be read"""
@@ -114,7 +117,9 @@ def run_case(case):
             def boom(data, pid=pid):
                 recv[pid].append(sorted([k, c.values[0]] for k, c in data.items()))
                 if data["ta"].values == [13]:
-                    raise KeyError("listener")
+                    # when it has seen an odd number of records the listener raises something that is not an Exception (an
+                    # interrupt, an exit request): the other probes of the call get their records all the same
+                    raise (_NonException if len(recv[pid]) % 2 else KeyError)("listener")
             p.subscribe(boom)
         elif pid in ("p14", "p15"):
             # overridable: the event reaches the stream through the intercept call; the pipeline answers with the value itself
@@ -196,7 +201,7 @@ def run_case(case):
                     ret = ENV[op[1]](op[2])
             else:
                 raise ValueError(op)
-        except Exception as ex:
+        except (Exception, _NonException) as ex:
             outcome = type(ex).__name__
         steps.append({"op": op, "outcome": outcome, "ret": ret, "obs": observe(probes, recv)})
     # leave the process clean for the next history: best-effort teardown (not part of the trace)
